@@ -227,5 +227,7 @@ func (m *Mask) maskValue(value, buf []byte) ([]byte, bool) {
 		}
 	}
 
-	return append(buf, value[curFinish:]...), true
+	// the tail starts after the last masked section: curFinish is -1 when the last selected
+	// group did not take part in the match
+	return append(buf, value[prevFinish:]...), true
 }
